@@ -519,6 +519,35 @@ fn exec_c<C: Suite>(scen: &Scenario) -> Exec {
                 }
             }
         }
+        // (b') the WHOLE distributed refresh run uses another threshold (everybody consistent with each other), against the
+        // current and against a legacy (pre-3.0, no recorded threshold) public key package: the final step must refuse
+        for tprime in [t + 1, t.wrapping_sub(1)] {
+            if tprime < 2 || tprime as usize > m {
+                continue;
+            }
+            let Ok((vsec, _)) = part1(victim_node, m as u16, tprime, "thr-all") else { continue };
+            let mut r1: BTreeMap<Identifier<C>, round1::Package<C>> = BTreeMap::new();
+            let mut r2: BTreeMap<Identifier<C>, round2::Package<C>> = BTreeMap::new();
+            for o in &others {
+                let (sec, pkg) = part1(*o, m as u16, tprime, "thr-all").unwrap();
+                r1.insert(sim.ids[*o], pkg);
+                let coeffs = crate::props::c07::r1_secret_coeffs::<C>(&serde_json::to_string(&sec).unwrap()).unwrap();
+                r2.insert(sim.ids[*o], round2::Package::new(share_from_scalar::<C>(&poly_eval::<C>(&coeffs, id_scalar::<C>(victim.identifier())))));
+            }
+            if let Ok((s2, _)) = refresh::refresh_dkg_part2::<C>(vsec, &r1) {
+                let legacy = PublicKeyPackage::<C>::new(cur_pk.verifying_shares().clone(), group_key, None);
+                for (pkname, pkx) in [("current", cur_pk.clone()), ("legacy (no recorded threshold)", legacy)] {
+                    rep.evaluations += 1;
+                    if let Ok((nkp, npk)) = refresh::refresh_dkg_shares::<C>(&s2, &r1, &r2, pkx, victim.clone()) {
+                        return Exec::Violation(
+                            viol("C10.threshold_change_accepted", format!("a distributed refresh run with threshold {tprime} (group threshold {t}) completed against the {pkname} public key package; the refreshed packages record {} / {:?}", nkp.min_signers(), npk.min_signers())),
+                            rep,
+                        );
+                    }
+                }
+                rep.probe("reject_threshold_dkg_whole_run");
+            }
+        }
         // (c) unknown participant, distributed: a round-1 entry from outside the group
         {
             let max = (m + 1) as u16;
